@@ -64,11 +64,11 @@ def _kill(pid, sig):
     if w is not None:
         if pid >= PID_BASE or pid in w.kernel.foreign:
             return w.kernel.kill(pid, sig)
+        if sig == 0:
+            return _real_kill(pid, 0)
         # a real pid while a simulated daemon is running: never deliver, but make it observable
         w.kernel.signal_log.append((CLOCK.now, pid, int(sig), 'os.kill(REAL PID)'))
         w.kernel.stray_real_signals.append((pid, int(sig)))
-        if sig == 0:
-            return _real_kill(pid, 0)
         return None
     return _real_kill(pid, sig)
 
